@@ -250,6 +250,9 @@ impl Runtime {
 
     /// Interrupt the program. Displays `BREAK` error.
     pub fn interrupt(&mut self) {
+        if matches!(self.state, State::Interrupt | State::RuntimeError(_)) {
+            return;
+        }
         self.cont = State::Interrupt;
         std::mem::swap(&mut self.state, &mut self.cont);
         self.cont_pc = self.pc;
